@@ -471,3 +471,71 @@ func Harness_C19_SortedMap() {
 	}
 	verif.Reached()
 }
+
+// Harness_C19_PPQDeep: the partitioned priority queue with enough partitions for a heap of
+// depth three (4..P): M items with arbitrary values are pushed into shape-chosen partitions,
+// optionally one of them is deleted again, then the queue is drained. Every Peek/Pop must
+// return the global minimum (so the drain is ascending) and each item exactly once.
+func Harness_C19_PPQDeep() {
+	np := verif.IntRange("partitions", 4, verif.Param("P", 4))
+	parts := make([]QueuePartition[*verifPItem], np)
+	for i := range parts {
+		parts[i] = &verifPart{}
+	}
+	q := NewPartitionedPriorityQueue(parts, func(a, b *verifPItem) int {
+		if a.val < b.val {
+			return -1
+		}
+		if a.val > b.val {
+			return 1
+		}
+		return 0
+	}, func(x *verifPItem) int { return x.part })
+	var model []*verifPItem
+	m := verif.Param("M", 4)
+	for i := 0; i < m; i++ {
+		it := &verifPItem{part: verif.Choose("part", np), val: int(verif.Byte("x"))}
+		q.Push(it)
+		model = append(model, it)
+		if i < m-1 {
+			continue
+		}
+		got, ok := q.Peek()
+		verif.Assert(ok, "peek-ok")
+		if ok {
+			isMin := true
+			for _, mm := range model {
+				isMin = verif.And(isMin, got.val <= mm.val)
+			}
+			verif.Assert(isMin, "peek-returns-global-minimum")
+		}
+	}
+	if verif.Param("DEL", 0) == 1 && verif.Choose("delete-one", 2) == 1 {
+		i := verif.Choose("del", len(model))
+		q.Delete(model[i])
+		model = append(model[:i:i], model[i+1:]...)
+	}
+	for len(model) > 0 {
+		got, ok := q.Pop()
+		verif.Assert(ok, "drain-pop-ok")
+		if !ok {
+			break
+		}
+		found := -1
+		isMin := true
+		for i, mm := range model {
+			isMin = verif.And(isMin, got.val <= mm.val)
+			if mm == got {
+				found = i
+			}
+		}
+		verif.Assert(isMin, "pop-returns-global-minimum")
+		verif.Assert(found >= 0, "drain-returns-members-once")
+		if found < 0 {
+			break
+		}
+		model = append(model[:found:found], model[found+1:]...)
+	}
+	verif.Assert(q.IsEmpty(), "empty-after-drain")
+	verif.Reached()
+}
